@@ -121,13 +121,13 @@ func (r *Remote) Answer(k BlockKey, kind string, salt uint64) {
 
 // DownloadOpts tunes RunDownload.
 type DownloadOpts struct {
-	MaxLen    int64
-	Steps     int
-	Hostile   bool // allow non-truth answers
-	Sizes     []uint32
-	ManyPieces bool // >=72 pieces geometry (sparse advertisement branch)
+	MaxLen         int64
+	Steps          int
+	Hostile        bool // allow non-truth answers
+	Sizes          []uint32
+	ManyPieces     bool // >=72 pieces geometry (sparse advertisement branch)
 	InjectCommands bool // post scheduler commands (PeerRequest) straight into peer mailboxes at arbitrary moments
-	AfterCut  func(tr *Tor, step int)
+	AfterCut       func(tr *Tor, step int)
 }
 
 // RunDownload drives one download history: a torrent that wants pieces, 1..6
@@ -655,6 +655,7 @@ func (sw *Swarm) CheckUnchoking(base int, where string) {
 	}
 	got := peer.NumUnchoking() - base
 	actors := 0
+	exiting := 0
 	remotes := 0
 	stale := false
 	for _, tr := range sw.Tors {
@@ -671,7 +672,11 @@ func (sw *Swarm) CheckUnchoking(base int, where string) {
 				sw.C.Inconclusive("reflect: Peer." + p.Missing)
 				return
 			}
-			if p.AmUnchoking {
+			if p.AmUnchoking && p.Exiting {
+				// Run is in its exit path (blocked handing its last reports to a stalled torrent loop) or has
+				// returned and the loop has not removed it yet: its share of the counter may or may not be released
+				exiting++
+			} else if p.AmUnchoking {
 				actors++
 			}
 			sw.C.R.Max("max:upload_queue", int64(p.UploadQ))
@@ -690,9 +695,12 @@ func (sw *Swarm) CheckUnchoking(base int, where string) {
 		}
 	}
 	sw.C.Count("unchoke_accounting_cuts", 1)
-	if got != actors {
-		sw.Viol("C16", "unchoke-accounting", "numunchoking-vs-actors "+where, fmt.Sprintf("peer.NumUnchoking() accounts for %d unchoked peers, %d peer actors are unchoking", got, actors))
-	} else if got != remotes && !stale {
+	if exiting > 0 {
+		sw.C.Count("unchoke_accounting_cuts_with_exiting_actor", 1)
+	}
+	if got < actors || got > actors+exiting {
+		sw.Viol("C16", "unchoke-accounting", "numunchoking-vs-actors "+where, fmt.Sprintf("peer.NumUnchoking() accounts for %d unchoked peers, %d peer actors are unchoking (and %d more that are exiting)", got, actors, exiting))
+	} else if got != remotes && !stale && exiting == 0 {
 		sw.Viol("C16", "unchoke-accounting", "numunchoking-vs-remotes "+where, fmt.Sprintf("peer.NumUnchoking() accounts for %d unchoked peers, %d connected remotes were last told Unchoke", got, remotes))
 	}
 	if got > 0 {
